@@ -23,6 +23,7 @@ RULE = (
     ' Also: failures after 0.25-1.5 s (late), of every item, while loading an input, as an unpicklable exception, as a signal death (SI'
     'GKILL/SIGSEGV/SIGABRT), as ENOSPC/EIO/EMFILE inside Image.save / load_path during a real cascade (source-free failpoints); sibling'
     's terminated inside Event.is_set; a stage that returns while the failing item is still in progress is a violation.'
+    " Round 8: stage 'startmethod' - fresh interpreters with spawn / forkserver and a failing leaf callback, walk callback or sampler."
 )
 ASSUMPTIONS = ["stuck state is decided on protocol state (no enabled transition) at two polls with equal progress counters"]
 EXHAUSTIVE = {"quick": "every item of: walk depth-2 generic (5 parents), leaves depth-1 and depth-2 (4+16), transform depth-1 (5 tiles)",
